@@ -2,15 +2,36 @@
 // on messages built from the witness block (all residues of the length mod 64 up to two blocks).
 #include "replay_common.h"
 #include "src/md5.cpp"
+#include "src/crypto.cpp"     // working-tree HMAC / message_digest glue
 #include "sha1.h"
 #include <openssl/md5.h>
 #include <openssl/sha.h>
+#include <openssl/hmac.h>
+#include <openssl/evp.h>
 #include <string.h>
 int main(int argc,char **argv)
 {
 	if(argc<3) return 2;
 	std::string what=argv[1];
 	witness w; if(!w.load(argv[2])) return 2;
+	if(what=="hmac") {
+		// cppcms::crypto::hmac (md5, sha1) against OpenSSL HMAC for key lengths 0..150 (shorter than, equal to and longer than the 64-byte block) and
+		// message lengths 0..70; the object is reused for a second message (readout re-arms it)
+		for(int alg=0;alg<2;alg++) for(size_t kl=0;kl<=150;kl++) for(size_t ml=0;ml<=70;ml+=(ml<4?1:11)) {
+			std::vector<unsigned char> key(kl?kl:1),msg(ml?ml:1);
+			for(size_t i=0;i<kl;i++) key[i]=(unsigned char)(i*37+kl);
+			for(size_t i=0;i<ml;i++) msg[i]=(unsigned char)(i*91+ml+alg);
+			cppcms::crypto::hmac h(alg==0?"md5":"sha1",cppcms::crypto::key(&key[0],kl));
+			unsigned char got[64],ref[64]; unsigned rl=0;
+			for(int round=0;round<2;round++) {
+				h.append(&msg[0],ml/2); h.append(&msg[0]+ml/2,ml-ml/2);
+				h.readout(got);
+				HMAC(alg==0?EVP_md5():EVP_sha1(),&key[0],(int)kl,&msg[0],ml,ref,&rl);
+				if(rl!=h.digest_size() || memcmp(got,ref,rl)!=0) { std::ostringstream m; m << "HMAC-" << (alg==0?"MD5":"SHA1") << " differs from OpenSSL: key length " << kl << ", message length " << ml << ", use " << round; return replay_fail(m.str()); }
+			}
+		}
+		return replay_ok("HMAC-MD5/SHA1 vs OpenSSL, key lengths 0..150");
+	}
 	std::vector<unsigned char> msg=w.bufs["block"];
 	// extend deterministically to 150 bytes so every padding residue and a second block are exercised
 	for(size_t i=msg.size();i<150;i++) msg.push_back((unsigned char)(i*131+7));
